@@ -13,8 +13,10 @@ MCInit ==
        /\ (kind = "eval" => K = 1 /\ maxfun = 0)
        /\ (kind = "nested" => failAt = 0)
        /\ (ab[2] > NH + NO => kind = "nested")
-       /\ cfg = [kind |-> kind, K |-> K, Kin |-> Kin, failAt |-> failAt, maxfun |-> maxfun,
-                 abEm |-> ab[1], abRc |-> ab[2], abCall |-> ab[3]]
+       /\ \E twoctx \in BOOLEAN :            \* the inner plan lives on its own OptimizerContext (observers on the root one)
+            /\ (twoctx => kind = "nested")
+            /\ cfg = [kind |-> kind, K |-> K, Kin |-> Kin, failAt |-> failAt, maxfun |-> maxfun,
+                      abEm |-> ab[1], abRc |-> ab[2], abCall |-> ab[3], twoctx |-> twoctx]
        /\ m = NewStep(1, 1, IF kind = "eval" THEN "eval" ELSE "opt", K, kind = "nested")
   /\ stack = <<>> /\ stream = <<>> /\ emc = 0 /\ callc = 0
   /\ aborted = <<FALSE, FALSE>> /\ rets = <<>> /\ refused = <<>>
